@@ -297,6 +297,12 @@ def synth(total, nseg, rng, multi=False, unknown=False, entropy=False):
             mi.type = NAME_ID_MAP["TST.TableDataList"]
             mi.version.extend([1, 0, 5])
             mi.length = len(m)
+            if unknown and i % 3 == 1:
+                # a field the schema does not know inside a MessageInfo
+                mi.MergeFromString(iwa.enc_varint(1998 << 3 | 0) + b"\x05")
+        if unknown and i % 2 == 0:
+            # ... and in the segment header (ArchiveInfo) itself: a varint and a length-delimited field
+            ai.MergeFromString(iwa.enc_varint(1999 << 3 | 0) + b"\x07" + iwa.enc_varint(2000 << 3 | 2) + b"\x02hd")
         segs.append((ai, msgs))
     return iwa.build(segs)
 
